@@ -62,7 +62,7 @@ NoEffect(e, o) == /\ o.I = intended /\ o.d = device /\ o.m = mirror
 \* ---- TransactionSet ------------------------------------------------------------------
 SetClauses(e, o) ==
   LET R == ReqOf(e)
-      wf == DistinctOwners(R) /\ PrioOK(intended, R) /\ \A i \in R : KeysClosed(i.upd)
+      wf == DistinctOwners(R) /\ PrioOK(intended, R) /\ \A i \in R : KeysClosed(i.upd) /\ OneCasePerChoice(i.upd)
       I2 == NewStore(intended, R)
       E2 == ever \cup LeavesOf(I2)
       orph == Orphaned(intended, R)
